@@ -23,6 +23,8 @@ import PPProofs.Props.C11Deep
 #print axioms PP.PRHeap.copyModule_deep_fresh
 #print axioms PP.PRHeap.copyModule_deep_frame
 #print axioms PP.PRHeap.copyModule_deep_as_list
+#print axioms PP.PRHeap.copyModule_deep_views
+#print axioms PP.PRHeap.deepObjN_drel
 #print axioms PP.PRHeap.deepObjN_rel
 #print axioms PP.PRHeap.deepObjN_spec
 #print axioms PP.PRHeap.frame_step
